@@ -23,6 +23,24 @@ on clock threads.
   wake-up while 1-2 plain threads poll the clocks, under sys.monitoring yield
   injection on the main time thread's getter, _update_logical_time and the
   TempoClock loop; every reading must be the scheduled beat / grid point.
+* error paths followed by continued use (round 7): in all of the above the
+  played / scheduled tasks end their wake-up in every way a clock has to cope
+  with - plain return, generator running off its end, user code raising (five
+  exception types, from Function and Routine tasks), StopStream, handing back
+  a non-delta - and the clock goes on; the event that runs next (root routine,
+  another played task, a task of another clock) is judged like any other and
+  keyed '.../right-after-task-ending-with-<how>' (a stale logical time left
+  behind by the failed wake-up shows as a wrong second / beat there).
+* real-time 'rtm' shards (vf/c12_race.py): every change of a history stays
+  continuous when a second party changes the same map concurrently: routines on
+  the clock / on another TempoClock change tempo / beats / etempo during
+  wake-ups that keep the library lock busy, a plain thread calls etempo /
+  tempo / beats setters meanwhile (yield injection inside the three mutators);
+  lock-held samples of the clock's line in one total order; every gap must be
+  the identity, the routine's own change, or - once per plain call - that
+  call's change applied to the line of that very gap (serialisability; a
+  pivot taken before the other party's change is keyed 'pivot-from-before-
+  the-routine-change').
 """
 
 import types
@@ -39,7 +57,12 @@ RULE = ("seeded programs run by a routine on a real TempoClock: clock created "
         "references; conversions; bars).  A program is non-trivial when it "
         "has a map change followed by a query or wake-up and a grid query with "
         "a fractional quant, negative phase or after a meter change; distinct "
-        "= hash of the program")
+        "= hash of the program.  Played tasks end by return / generator end / "
+        "raise / StopStream / non-delta value.  rtm rounds: 2-3 clocks, each "
+        "with 1-2 routines (own clock / another TempoClock) making 100-180 "
+        "changes and a plain thread calling etempo / tempo / beats setters; "
+        "non-trivial when a plain call took effect after a routine change "
+        "made inside its window")
 ASSUMPTIONS = [
     "vf/c12_model.py (affine map, meter reference, grid oracle) is the meaning "
     "of the statement; any whole bar number next to the running bar is "
@@ -49,6 +72,13 @@ ASSUMPTIONS = [
     "after the beats setter both readings of 'takes effect after "
     "rescheduling' are accepted for the next wake-up",
     "icontract 2.7.3; its recursion guard is replaced by the harness' own",
+    "rtm: etempo(), the tempo setter and the beats setter are public and take "
+    "the library lock, so calls from a plain thread are judged for atomicity "
+    "against the routines' changes only: continuity at SOME physical second "
+    "of the call's duration, no order between the parties assumed; clocks are "
+    "not stopped while calls are in flight",
+    "a task that raises is logged by the clock and not rescheduled "
+    "(documented 'always recover'); only the events after it are judged",
 ]
 MIN_COUNTERS = {
     'quick': {'grid_queries_checked': 5000, 'contract_next_time_on_grid': 5000,
@@ -65,14 +95,32 @@ MIN_COUNTERS = {
               'rtc_wakeups_checked_quant-function': 10,
               'rtc_wakeups_checked_quant-routine': 10,
               'rtc_reader_reads': 500,
-              'rtc_reader_reads_overlapping_a_wakeup': 20},
+              'rtc_reader_reads_overlapping_a_wakeup': 20,
+              'wakes_checked_right_after_raise': 500,
+              'wakes_checked_right_after_stopstream': 30,
+              'wakes_checked_right_after_value': 200,
+              'rt_wakes_checked_right_after_raise': 10,
+              'rtc_wakeups_checked_right_after_raise': 50,
+              'rtc_wakeups_checked_right_after_stopstream': 10,
+              'rtc_wakeups_checked_right_after_value': 30,
+              'rtm_routine_wakeups': 3000, 'rtm_plain_changes_checked': 1000,
+              'rtm_plain_changes_applied_after_a_routine_change_etempo': 40,
+              'rtm_plain_changes_applied_after_a_routine_change_tempo': 40,
+              'rtm_plain_changes_applied_after_a_routine_change_beats': 25},
     'thorough': {'grid_queries_checked': 500000,
                  'contract_next_time_on_grid': 500000,
                  'observations': 100000, 'wake_times_checked': 100000,
                  'play_first_wakes_checked': 50000,
                  'rt_programs_finished': 300, 'rt_wake_times_checked': 1000,
                  'rtc_wakeups_checked': 20000,
-                 'rtc_reader_reads_overlapping_a_wakeup': 2000},
+                 'rtc_reader_reads_overlapping_a_wakeup': 2000,
+                 'wakes_checked_right_after_raise': 50000,
+                 'rt_wakes_checked_right_after_raise': 100,
+                 'rtc_wakeups_checked_right_after_raise': 2000,
+                 'rtm_plain_changes_checked': 20000,
+                 'rtm_plain_changes_applied_after_a_routine_change_etempo': 800,
+                 'rtm_plain_changes_applied_after_a_routine_change_tempo': 800,
+                 'rtm_plain_changes_applied_after_a_routine_change_beats': 500},
 }
 
 
@@ -99,16 +147,23 @@ def plan(tier, seed):
         shards.append({'name': f'rtc{p}', 'mode': 'rt', 'kind': 'rtc',
                        'first_case': f, 'n': n, 'secs': csecs,
                        'p_yield': 0.2, 'hard_timeout': csecs + 120})
+    # map changes from a plain thread racing with those of routines on the
+    # clocks (vf/c12_race.py)
+    n_rtm, mparts, msecs = (64, 4, 20) if tier == 'quick' else (800, 4, 300)
+    for p, (f, n) in enumerate(split(n_rtm, mparts)):
+        shards.append({'name': f'rtm{p}', 'mode': 'rt', 'kind': 'rtm',
+                       'first_case': f, 'n': n, 'secs': msecs,
+                       'p_yield': 0.25, 'hard_timeout': msecs + 120})
     return shards
 
 
 def _sc():
     from sc3.base.main import main
     from sc3.base.clock import TempoClock, Quant, SystemClock
-    from sc3.base.stream import Routine
+    from sc3.base.stream import Routine, StopStream
     return types.SimpleNamespace(main=main, TempoClock=TempoClock, Quant=Quant,
                                  SystemClock=SystemClock,
-                                 Routine=Routine)
+                                 Routine=Routine, StopStream=StopStream)
 
 
 def _nontrivial(feat):
@@ -125,6 +180,11 @@ def run_shard(spec, acc):
         # no contracts here: the readers must stay a tight loop
         from vf.c12_conc import run_rtc
         run_rtc(spec, acc, sc)
+        return
+    if spec['shard']['kind'] == 'rtm':
+        # no contracts either: the sampling is the monitor
+        from vf.c12_race import run_rtm
+        run_rtm(spec, acc, sc)
         return
     if os.environ.get('VERIF_C12_NO_CONTRACTS'):
         # mutation sanity of the reference-model layer alone (the run is then
@@ -164,6 +224,7 @@ def run_nrt(spec, acc, sc, K):
         acc.case(h64(repr(prog)), nontrivial=_nontrivial(feat))
         sc.main.reset()
         K.take_fails()
+        R.PREV_END[0] = 'return'
         run = R.Run(prog, 'nrt', sc, counts)
         if prog.get('create_at'):
             def starter():      # no parameters: a scheduled function
